@@ -40,3 +40,83 @@ pub fn map<T: Send, F: Fn(usize) -> T + Sync>(n: usize, f: F) -> Vec<T> {
     all.sort_by_key(|x| x.0);
     all.into_iter().map(|x| x.1).collect()
 }
+
+/// Process-parallel reduce: fork `nproc` children; each repeatedly takes the next index from a shared
+/// counter and folds it into its own accumulator; at the end every child serialises its accumulator
+/// to the parent. Used where the work is dominated by mmap/munmap/open (kernel locks that are per
+/// process: threads do not scale there, processes do). Must be called while single-threaded.
+pub fn fork_reduce<A>(n: usize, init: impl Fn(usize) -> A, step: impl Fn(&mut A, usize), ser: impl Fn(A) -> serde_json::Value) -> Vec<serde_json::Value> {
+    use std::io::{Read, Write};
+    use std::os::unix::io::FromRawFd;
+    let nproc = threads().min(n.max(1));
+    // shared work counter
+    // SAFETY: anonymous shared mapping of one page, used as an AtomicUsize by parent and children
+    let counter = unsafe {
+        let p = libc::mmap(std::ptr::null_mut(), 4096, libc::PROT_READ | libc::PROT_WRITE, libc::MAP_SHARED | libc::MAP_ANONYMOUS, -1, 0);
+        assert!(p != libc::MAP_FAILED);
+        &*(p as *const AtomicUsize)
+    };
+    counter.store(0, Ordering::SeqCst);
+    let _ = std::io::stdout().flush();
+    let mut kids = vec![];
+    for c in 0..nproc {
+        let mut fds = [0i32; 2];
+        // SAFETY: plain pipe/fork
+        unsafe {
+            assert_eq!(libc::pipe(fds.as_mut_ptr()), 0);
+            let pid = libc::fork();
+            assert!(pid >= 0, "fork failed");
+            if pid == 0 {
+                libc::close(fds[0]);
+                let mut acc = init(c);
+                loop {
+                    let i = counter.fetch_add(1, Ordering::SeqCst);
+                    if i >= n {
+                        break;
+                    }
+                    step(&mut acc, i);
+                }
+                let v = ser(acc);
+                let mut f = std::fs::File::from_raw_fd(fds[1]);
+                let _ = f.write_all(serde_json::to_string(&v).unwrap().as_bytes());
+                let _ = f.flush();
+                drop(f);
+                let _ = std::io::stdout().flush();
+                libc::_exit(0);
+            }
+            libc::close(fds[1]);
+            kids.push((pid, fds[0]));
+        }
+    }
+    let readers: Vec<_> = kids
+        .iter()
+        .map(|(_, fd)| {
+            let fd = *fd;
+            std::thread::spawn(move || {
+                // SAFETY: fd is the read end of a pipe owned by this thread from now on
+                let mut f = unsafe { std::fs::File::from_raw_fd(fd) };
+                let mut s = String::new();
+                let _ = f.read_to_string(&mut s);
+                s
+            })
+        })
+        .collect();
+    let mut out = vec![];
+    let outputs: Vec<String> = readers.into_iter().map(|h| h.join().unwrap_or_default()).collect();
+    for ((pid, _), s) in kids.iter().zip(outputs) {
+        let mut status = 0;
+        // SAFETY: waiting for our own child
+        unsafe { libc::waitpid(*pid, &mut status, 0) };
+        if !libc::WIFEXITED(status) || libc::WEXITSTATUS(status) != 0 {
+            let code = if libc::WIFEXITED(status) { libc::WEXITSTATUS(status) } else { -1 };
+            super::report::machinery_failure(&format!("worker process ended abnormally (status {code}, raw {status})"));
+        }
+        match serde_json::from_str(&s) {
+            Ok(v) => out.push(v),
+            Err(e) => super::report::machinery_failure(&format!("worker process returned unparsable output: {e}")),
+        }
+    }
+    // SAFETY: unmapping the page mapped above
+    unsafe { libc::munmap(counter as *const AtomicUsize as *mut libc::c_void, 4096) };
+    out
+}
